@@ -9,6 +9,7 @@
 //!  5. `datatype`          DataType Display -> FromStr identity
 //!  `datatype_known_shapes`, `cast_known_shapes`: reproductions of the defects the generators avoid by construction
 //!  (F5, F5b, C13f7..C13f22, see notes/c13_proposed_known_findings.json); they have no generated cases and run through the known-findings replay only.
+use arrow_array::cast::AsArray;
 use arrow_array::{Array, ArrayRef};
 use arrow_cast::display::{ArrayFormatter, FormatOptions};
 use arrow_cast::{can_cast_types, cast_with_options, CastOptions};
@@ -1325,6 +1326,222 @@ fn is_temporal(t: &LType) -> bool {
     matches!(t, Date32 | Date64 | Time32(_) | Time64(_) | Timestamp(..) | Duration(_))
 }
 
+// =====================================================================================================
+// re-encoding differential: the same logical column as a plain array, as a dictionary (sparse, permuted, with unused,
+// duplicated and null dictionary entries, null keys, sliced) and as a run-end array must cast to the same values, nulls
+// and Ok/Err outcome for every leaf target type ("dictionary/run-end ... re-encodings preserve values")
+const REENC_TARGETS: usize = 30;
+fn reencode_targets() -> Vec<DataType> {
+    use arrow_schema::TimeUnit::*;
+    vec![
+        DataType::Int8, DataType::Int16, DataType::Int32, DataType::Int64, DataType::UInt8, DataType::UInt16, DataType::UInt32, DataType::UInt64,
+        DataType::Float32, DataType::Float64, DataType::Boolean, DataType::Utf8, DataType::LargeUtf8, DataType::Utf8View, DataType::Binary,
+        DataType::LargeBinary, DataType::BinaryView, DataType::Decimal128(20, 3), DataType::Decimal128(38, 10), DataType::Decimal256(40, 2),
+        DataType::Decimal32(9, 2), DataType::Decimal64(18, 0), DataType::Date32, DataType::Date64, DataType::Timestamp(Second, None),
+        DataType::Timestamp(Nanosecond, Some("UTC".into())), DataType::Time32(Second), DataType::Time64(Nanosecond), DataType::Duration(Millisecond),
+        DataType::Float16,
+    ]
+}
+
+/// dictionary encoding built by hand (garbage-free values array): (array, has fresh unreferenced entries)
+fn encode_dict(t: &mut Tape, value: &LType, vals: &[LValue], kbits: u8) -> (ArrayRef, bool) {
+    use arrow_array::types::*;
+    use arrow_array::{DictionaryArray, PrimitiveArray};
+    let vc = ValCfg::default();
+    let mut dict: Vec<LValue> = vec![];
+    for v in vals {
+        if !v.is_null() && !dict.contains(v) {
+            dict.push(v.clone());
+        }
+    }
+    let cap = if kbits == 8 { 127 } else { 1 << 20 };
+    let mut fresh = false;
+    // unused entries: duplicates of used ones, fresh values, null entries; sometimes many (sparse dictionary)
+    let extra = match t.below(4) {
+        0 => 0,
+        1 => t.below(3),
+        _ => t.below(2 * vals.len() + 8),
+    };
+    for _ in 0..extra.min(cap - dict.len().min(cap)) {
+        match t.below(4) {
+            0 if !dict.is_empty() => {
+                let d = dict[t.below(dict.len())].clone();
+                dict.push(d)
+            }
+            1 => dict.push(LValue::Null),
+            2 => {
+                fresh = true;
+                dict.push(gen_nonnull(t, value, &vc))
+            }
+            _ => dict.push(LValue::Null),
+        }
+    }
+    let p = t.perm(dict.len());
+    let mut d2 = dict.clone();
+    for (i, j) in p.iter().enumerate() {
+        d2[*j] = dict[i].clone();
+    }
+    let dict = d2;
+    let null_entries: Vec<usize> = dict.iter().enumerate().filter(|(_, d)| d.is_null()).map(|(i, _)| i).collect();
+    // leading / trailing rows that are sliced away again
+    let lead = if t.chance(80) { 1 + t.below(3) } else { 0 };
+    let trail = if t.chance(80) { 1 + t.below(3) } else { 0 };
+    let mut keys: Vec<Option<i64>> = vec![];
+    let any = |t: &mut Tape, dict: &Vec<LValue>| if dict.is_empty() { None } else { Some(t.below(dict.len()) as i64) };
+    for _ in 0..lead {
+        keys.push(any(t, &dict));
+    }
+    for v in vals {
+        if v.is_null() {
+            if !null_entries.is_empty() && t.bool() {
+                keys.push(Some(*t.pick(&null_entries) as i64));
+            } else {
+                keys.push(None);
+            }
+        } else {
+            let cands: Vec<usize> = dict.iter().enumerate().filter(|(_, d)| *d == v).map(|(i, _)| i).collect();
+            keys.push(Some(*t.pick(&cands) as i64));
+        }
+    }
+    for _ in 0..trail {
+        keys.push(any(t, &dict));
+    }
+    let values = realise(t, value, &dict, true, &Lay::plain());
+    let arr: ArrayRef = match kbits {
+        8 => Arc::new(DictionaryArray::<Int8Type>::try_new(PrimitiveArray::<Int8Type>::from(keys.iter().map(|k| k.map(|x| x as i8)).collect::<Vec<_>>()), values).unwrap()),
+        16 => Arc::new(DictionaryArray::<UInt16Type>::try_new(PrimitiveArray::<UInt16Type>::from(keys.iter().map(|k| k.map(|x| x as u16)).collect::<Vec<_>>()), values).unwrap()),
+        32 => Arc::new(DictionaryArray::<Int32Type>::try_new(PrimitiveArray::<Int32Type>::from(keys.iter().map(|k| k.map(|x| x as i32)).collect::<Vec<_>>()), values).unwrap()),
+        _ => Arc::new(DictionaryArray::<UInt64Type>::try_new(PrimitiveArray::<UInt64Type>::from(keys.iter().map(|k| k.map(|x| x as u64)).collect::<Vec<_>>()), values).unwrap()),
+    };
+    (arr.slice(lead, vals.len()), fresh)
+}
+
+fn sub_reencode(c: &mut Case) -> CaseResult {
+    let mut cfg = TypeCfg::primitive();
+    cfg.interval = false;
+    let v = gen_type(&mut c.tape, &cfg);
+    let n = match c.tape.below(6) {
+        0 => 0,
+        1 => 1,
+        2 => 1 + c.tape.below(3),
+        _ => c.tape.below(14),
+    };
+    let vals = gen_column(&mut c.tape, &v, true, n, &ValCfg::default());
+    let plain = no_panic("reencode:realise", || realise(&mut c.tape, &v, &vals, true, &Lay::plain()))?;
+    let kbits = *c.tape.pick(&[32u8, 8, 16, 64]);
+    let distinct = {
+        let mut d: Vec<&LValue> = vec![];
+        for x in &vals {
+            if !x.is_null() && !d.contains(&x) {
+                d.push(x);
+            }
+        }
+        d.len()
+    };
+    if kbits == 8 && distinct > 100 {
+        return Ok(());
+    }
+    let (dict, fresh) = no_panic("reencode:encode_dict", || encode_dict(&mut c.tape, &v, &vals, kbits))?;
+    let ree_ty = LType::Ree { rbits: *c.tape.pick(&[32u8, 16, 64]), value: lf("values", v.clone(), true) };
+    // (RunArray::try_new occasionally rejects a sliced values child with arrow's "null_bit_buffer size too small" rule,
+    // see DESIGN.md section 4: fall back to the plain layout then)
+    let ree_lay = if is_dec(&v) && !c.strict {
+        // open finding C13f10: decimal rescaling unwraps the undefined payload of null slots (fancy layouts put garbage there)
+        c.exclude("C13f10-decimal-rescale-panics-on-null-slot-payload");
+        Lay::plain()
+    } else {
+        Lay::fancy()
+    };
+    let ree = match catch(|| realise(&mut c.tape, &ree_ty, &vals, true, &ree_lay)) {
+        Ok(a) => a,
+        Err(_) => no_panic("reencode:realise-ree", || realise(&mut c.tape, &ree_ty, &vals, true, &Lay::plain()))?,
+    };
+    // both encodings read back as the logical column (ties the hand-made dictionary to the model)
+    for (name, a) in [("dict", &dict), ("ree", &ree)] {
+        let got = no_panic("reencode:extract", || extract(a.as_ref()))?;
+        ensure!(first_diff(&got, &vals).is_none(), format!("reencode:{}:harness-readback", name), "hand-made {} encoding does not read back as the model column", name);
+    }
+    let dvals = dict.as_any_dictionary_opt().map(|d| d.values().len()).unwrap_or(0);
+    if dvals > 2 * n {
+        c.class("dict:sparse");
+    }
+    if dict.as_any_dictionary_opt().map(|d| d.values().null_count() > 0).unwrap_or(false) {
+        c.class("dict:null-values");
+    }
+    let targets = reencode_targets();
+    let picks = 1 + c.tape.below(3);
+    let mut compared = 0;
+    let mut desc = vec![];
+    for _ in 0..picks {
+        let t = targets[c.tape.below(REENC_TARGETS)].clone();
+        if !can_cast_types(plain.data_type(), &t) {
+            continue;
+        }
+        for safe in [true, false] {
+            let o = opts(safe);
+            let rp = catch(|| cast_with_options(plain.as_ref(), &t, &o));
+            let Ok(rp) = rp else {
+                c.class("plain-cast-panics");
+                continue;
+            };
+            for (name, enc) in [("dict", &dict), ("ree", &ree)] {
+                if !can_cast_types(enc.data_type(), &t) {
+                    continue;
+                }
+                if !safe && name == "ree" && ree_lay.fancy && !c.strict {
+                    // same finding: padded / sliced-away runs are converted as well
+                    c.exclude("C13f9-strict-cast-converts-unreferenced-storage");
+                    continue;
+                }
+                if !safe && name == "dict" && fresh && !c.strict {
+                    // open finding C13f9: strict casts also convert dictionary entries no key refers to
+                    c.exclude("C13f9-strict-cast-converts-unreferenced-storage");
+                    continue;
+                }
+                let what = format!("reencode:{}", name);
+                let re = no_panic(&format!("{}:cast", what), || cast_with_options(enc.as_ref(), &t, &o))?;
+                match (&rp, &re) {
+                    (Ok(a), Ok(b)) => {
+                        ensure!(b.data_type() == &t, format!("{}:type", what), "cast({} -> {}) returned {}", enc.data_type(), t, b.data_type());
+                        check_valid(b.as_ref(), &what)?;
+                        let ga = no_panic("extract", || extract(a.as_ref()))?;
+                        let gb = no_panic("extract", || extract(b.as_ref()))?;
+                        if let Some(i) = first_diff(&ga, &gb) {
+                            fail!(format!("{}:row", what), "cast({} -> {}, safe={}) row {} is {:?} but the plain {} array casts to {:?} (source value {:?})", enc.data_type(), t, safe, i, gb.get(i).map(|x| x.short()), plain.data_type(), ga.get(i).map(|x| x.short()), vals.get(i).map(|x| x.short()));
+                        }
+                    }
+                    (Err(_), Err(_)) => {}
+                    (Ok(_), Err(e)) => fail!(format!("{}:err-only-encoded", what), "cast({} -> {}, safe={}) fails ({}) but the plain {} array with the same values casts fine", enc.data_type(), t, safe, e, plain.data_type()),
+                    (Err(e), Ok(_)) => fail!(format!("{}:err-only-plain", what), "cast({} -> {}, safe={}) succeeds but the plain {} array with the same values fails: {}", enc.data_type(), t, safe, plain.data_type(), e),
+                }
+                compared += 1;
+                c.eval();
+            }
+        }
+        desc.push(t.to_string());
+        c.class(format!("target:{}", fam_of_dt(&t)));
+    }
+    c.class(format!("source:{}", v.family()));
+    c.describe(json!({"value_type": v.arrow().to_string(), "rows": short_vec(&vals), "dictionary_values": dvals, "key_bits": kbits, "targets": desc}));
+    if compared >= 2 && n >= 2 {
+        c.nontrivial();
+    }
+    Ok(())
+}
+fn fam_of_dt(t: &DataType) -> &'static str {
+    match t {
+        DataType::Utf8 | DataType::LargeUtf8 => "string",
+        DataType::Utf8View => "string-view",
+        DataType::Binary | DataType::LargeBinary => "binary",
+        DataType::BinaryView => "binary-view",
+        x if x.is_integer() => "int",
+        x if x.is_floating() => "float",
+        DataType::Boolean => "bool",
+        DataType::Decimal32(..) | DataType::Decimal64(..) | DataType::Decimal128(..) | DataType::Decimal256(..) => "decimal",
+        _ => "temporal",
+    }
+}
+
 fn sub_inverse(c: &mut Case) -> CaseResult {
     let mut cfg = TypeCfg::all();
     cfg.depth = 2;
@@ -1984,6 +2201,7 @@ fn main() {
     .sub(Sub::new("duality_exhaustive", 0, 0, sub_duality_exhaustive).enumerate(2 * N_EXH_TARGETS, 5 * N_EXH_TARGETS))
     .sub(Sub::new("duality", 250_000, 4_000_000, sub_duality).tape(128, 4000).require(&["int->int", "float->int", "decimal->decimal", "int->decimal", "decimal->int", "float->decimal", "timestamp->timestamp", "date->timestamp", "timestamp->date", "both-sides-of-limit"]))
     .sub(Sub::new("inverse", 120_000, 2_000_000, sub_inverse).tape(256, 6000).require(&["int-widen", "int->decimal", "decimal-upscale", "string-reencode", "binary-reencode", "list-reencode", "pack-dict", "pack-ree", "dict-unpack", "ree-unpack", "temporal-finer"]))
+    .sub(Sub::new("reencode", 120_000, 2_000_000, sub_reencode).tape(128, 4000).require(&["dict:sparse", "dict:null-values", "target:string-view", "target:string", "target:int", "target:decimal", "target:temporal", "source:bytes", "source:view", "source:int", "source:decimal"]))
     .sub(Sub::new("text", 120_000, 2_000_000, sub_text).tape(256, 5000).require(&["type:int", "type:float", "type:decimal", "type:temporal", "type:bool", "extreme-value", "decimal128:max-precision", "decimal256:max-precision"]))
     .sub(Sub::new("text_cross", 60_000, 1_000_000, sub_text_cross).tape(256, 5000).require(&["int-text->int", "int-text->decimal", "int-text->float", "decimal-text->decimal", "both-sides-of-limit"]))
     .sub(Sub::new("datatype", 100_000, 1_500_000, sub_datatype).tape(64, 1500).require(&["struct", "union", "map", "generated-field-names", "unicode-name"]))
